@@ -222,8 +222,14 @@ def render_touchstone(content, sp, seed):
         return fmt_num(x, num, rng)
 
     d.extra(out)
+    tol = sp.get("tol", "none")
     if not v1:
         out.append(d.line([d.word("[Version]"), "2.0"]))
+        d.extra(out)
+    elif tol == "version10":
+        # not part of the format: some instruments write it; libvna says it
+        # tolerates it with a warning
+        out.append(d.line([d.word("[Version]"), "1.0"]))
         d.extra(out)
     # option line
     optval = {"unit": d.word(UNIT_NAME[sp["unit"]]), "param": d.word(param),
@@ -359,15 +365,22 @@ def render_touchstone(content, sp, seed):
             for rec in content["noise"]:
                 row = [N(rec[0] / mult)] + [N(x) for x in rec[1:]]
                 out.append(d.line(row))
-        d.extra(out)
-        out.append(d.line([d.word("[End]")]))
+        if tol != "noend":
+            d.extra(out)
+            out.append(d.line([d.word("[End]")]))
     d.extra(out)
     text = d.eol.join(out) + d.eol
     return text.encode("ascii"), meta
 
 
 def natural_ext(content, sp):
-    return (".s%dp" % content["ports"]) if sp["fr"] == "v1" else ".ts"
+    if sp["fr"] != "v1":
+        return ".ts"
+    n = content["ports"]
+    if sp.get("tol") == "wrongext":
+        # a name that suggests another port count (.s2p is taken as "any")
+        n = 3 if n <= 2 else n + 1
+    return ".s%dp" % n
 
 
 def access_plan(content, sp):
